@@ -379,3 +379,72 @@ def minute_offset_print(rep, prog, rule="OFFSET-CIVIL"):
                           % (show(dt, maxd=3)[:70], show(printed, maxd=3)[:50] if printed is not None else "?",
                              bool(offs) and all(o == printed for o in offs), rounded), loc)
     rep.floor(rule + " calls", n, 1)
+
+
+# ------------------------------------------------------------------------------------------------------------------
+_UNITS6 = ("hours", "minutes", "seconds", "milliseconds", "microseconds", "nanoseconds")
+
+
+def accumulate(rep, prog, rule="ACCUMULATE"):
+    """a time unit of the span under construction may already hold what a bigger unit spilled into it"""
+    rep.rule(rule, "the duration parsers accept a time unit above its limit and spill the excess into the smaller units "
+                   "(fmt::util::fractional_time_to_span); therefore (1) wherever a parser stores a parsed time-unit value with "
+                   "Span::try_units_ranged and can fall back to fractional_time_to_span for the same unit, the stored value "
+                   "contains the unit's previous content (get_units_ranged of the same span), and (2) fractional_time_to_span "
+                   "reads every unit it may write (get_<unit>_ranged of the span it was given) before it writes it: a value that "
+                   "is written without being read first replaces what an earlier spill put there - `PT175307617H5M` lost an hour")
+    n = 0
+    # (1) the parsers' plain writes
+    for name, g in sorted(prog.fns.items()):
+        if not (name.startswith("jiff::fmt::friendly::parser") or name.startswith("jiff::fmt::temporal::parser")):
+            continue
+        calls = list(mir.iter_calls(g))
+        fb = [(bi, t) for bi, t in calls if t.get("path", "").endswith("fmt::util::fractional_time_to_span")]
+        ws = [(bi, t) for bi, t in calls if t.get("path", "").endswith("span::Span::try_units_ranged")]
+        if not fb or not ws:
+            continue
+        T = Terms(g)
+        cfg = mir.CFG(g)
+        k = 0
+        for (bi, t) in ws:
+            unit = T.at_call(bi, t, 1)
+            same = [(bj, u) for bj, u in fb if T.at_call(bj, u, 0) == unit and bj in cfg.reachable_from(bi)]
+            if not same:
+                continue        # no over-limit fallback for this write (calendar units): nothing can have been spilled
+            n += 1
+            k += 1
+            key = "%s | try_units_ranged#%d" % (name.replace("jiff::", ""), k)
+            loc = "%s:%s" % (t["span"]["file"], t["span"]["line"])
+            v = T.at_call(bi, t, 2)
+            reads = [y for y in walk(v) if isinstance(y, tuple) and y and y[0] == "call" and y[1].endswith("::get_units_ranged")
+                     and len(y[2]) >= 2 and y[2][1] == unit]
+            if reads:
+                rep.ok(rule, key, how="stores value + get_units_ranged(span, unit)", loc=loc)
+            else:
+                rep.violation(rule, key, "the value stored is %s: what a bigger, over-limit unit spilled into this unit is replaced "
+                              "(the fallback to fractional_time_to_span at line %s shows that spilling happens here)"
+                              % (show(v, maxd=2)[:60], same[0][1]["span"]["line"]), loc)
+    # (2) the spiller itself
+    g = prog.fns.get("jiff::fmt::util::fractional_time_to_span")
+    if g is None:
+        rep.violation(rule, "fractional_time_to_span", "anchor missing: fmt::util::fractional_time_to_span", "src/fmt/util.rs")
+    else:
+        T = Terms(g)
+        cfg = mir.CFG(g)
+        span_param = [i for i in range(1, (g.get("argc") or 0) + 1) if (g["locals"][i] or {}).get("n") == "span"]
+        for u in _UNITS6:
+            writes = [(bi, t) for bi, t in mir.iter_calls(g) if re.search(r"span::Span::(try_)?%s_ranged$" % u, t.get("path", ""))]
+            if not writes:
+                continue
+            n += 1
+            key = "fractional_time_to_span | %s" % u
+            reads = [(bi, t) for bi, t in mir.iter_calls(g) if t.get("path", "").endswith("span::Span::get_%s_ranged" % u)
+                     and any(isinstance(y, tuple) and y and y[0] == "param" and y[1] in span_param for y in walk(T.at_call(bi, t, 0)))]
+            ok = bool(reads) and all(any(wb in cfg.reachable_from(rb) or wb == rb for rb, _ in reads) for wb, _ in writes)
+            loc = "%s:%s" % (writes[0][1]["span"]["file"], writes[0][1]["span"]["line"])
+            if ok:
+                rep.ok(rule, key, how="reads get_%s_ranged(span) before writing the unit" % u, loc=loc)
+            else:
+                rep.violation(rule, key, "the %s of the span are written (line %s) but never read from the span that was passed in: "
+                              "whatever an earlier spill stored there is dropped" % (u, writes[0][1]["span"]["line"]), loc)
+    rep.floor(rule + " sites", n, 7)
